@@ -35,6 +35,7 @@ type c09case struct {
 	Req   []string  `json:"req"`
 	Flags []string  `json:"flags"`
 	Prior bool      `json:"prior_success"` // every task has succeeded on these inputs before the failing (forced) run
+	Clean bool      `json:"via_clean"`     // the last task is named clean and is run through `spok --clean`
 }
 
 func (k c09case) key() string { b, _ := json.Marshal(k); return string(b) }
@@ -94,6 +95,20 @@ func c09Gen(r *core.Rng) c09case {
 	for _, f := range k.Flags {
 		if f == "--force" && r.Chance(50) {
 			k.Prior = true
+		}
+	}
+	if !k.Prior && r.Chance(12) {
+		// a user-defined clean task is an executed task like any other
+		last := &k.Tasks[len(k.Tasks)-1]
+		last.Name = "clean"
+		k.Req = []string{"clean"}
+		k.Clean = true
+		fails := false
+		for _, cmd := range last.Cmds {
+			fails = fails || cmd.Fail
+		}
+		if !fails {
+			last.Cmds[0] = c09cmd{Fail: true, Form: "exit", Status: 3}
 		}
 	}
 	return k
@@ -185,7 +200,7 @@ func c09Judge(c *core.Ctx, k c09case, res *core.ShardResult) (vs []core.Violatio
 		_ = os.WriteFile(filepath.Join(sb.Proj, f), []byte(f), 0o644)
 	}
 	for _, t := range k.Tasks {
-		_ = os.WriteFile(filepath.Join(sb.Proj, t.Name+".txt"), []byte(t.Name), 0o644)
+		_ = os.WriteFile(filepath.Join(sb.Proj, t.File), []byte(t.File), 0o644)
 		for i, cmd := range t.Cmds {
 			if cmd.Fail {
 				_ = os.WriteFile(filepath.Join(sb.Flags, fmt.Sprintf("fail.%s.%d", t.Name, i)), nil, 0o644)
@@ -197,7 +212,11 @@ func c09Judge(c *core.Ctx, k c09case, res *core.ShardResult) (vs []core.Violatio
 	}
 	run := func(flags []string) (core.Invocation, []string) {
 		_ = os.Remove(sb.Log)
-		inv := core.RunSpok(core.SpokOpts{Bin: c.SpokRace(), Dir: sb.Proj, Home: sb.Home, Args: append(append([]string{}, flags...), k.Req...)})
+		args := append(append([]string{}, flags...), k.Req...)
+		if k.Clean {
+			args = append(append([]string{}, flags...), "--clean")
+		}
+		inv := core.RunSpok(core.SpokOpts{Bin: c.SpokRace(), Dir: sb.Proj, Home: sb.Home, Args: args})
 		res.Evaluations++
 		return inv, sb.readLog()
 	}
@@ -243,6 +262,9 @@ func c09Judge(c *core.Ctx, k c09case, res *core.ShardResult) (vs []core.Violatio
 		return
 	}
 	res.Count("failing_invocations", 1)
+	if k.Clean {
+		res.Count("failing_invocations_via_clean", 1)
+	}
 	res.Seen("flags", strings.Join(k.Flags, " "))
 	if inv1.Exit == 0 {
 		bad("invocation-fails", "commands of %v exited non-zero but spok exited 0 (stdout %s)", failed, core.Trunc(inv1.Stdout, 200))
